@@ -14,7 +14,8 @@ import algebra
 import gen
 
 RULE = ('seeded random trees (depth <= 4, arity <= 4, every third from the collision stream where different atoms render '
-        'identically) each followed by a sequence of 1-4 rewrite steps at random nodes; exhaustive depth-2 trees over 3 '
+        'identically, every fourth over keys that are prefixes of one another so that plain and WITH symbols interleave in '
+        'the order) each followed by a sequence of 1-4 rewrite steps at random nodes; exhaustive depth-2 trees over 3 '
         'atoms; non-trivial = not a single license; distinct by (tree, rewritten tree)')
 ASSUMPTIONS = ['idempotence and rewrite invariance are checked on the implementation by the oracle and on the model by the '
                'correspondence; the Coq theorems cover the canonical shape (C07_canonical) and the strictness of the order']
@@ -75,7 +76,17 @@ def run(rep, tier, seed):
     trees = list(algebra.enum_trees(3, 2, 2)) if tier == 'quick' else list(algebra.enum_trees(3, 3, 1)) + list(algebra.enum_trees(3, 2, 2))
     nex = len(trees)
     for i in range(n):
-        trees.append(gen.gen_tree(rng, depth=rng.randint(1, 4), maxar=4, collide=(i % 3 == 0)))
+        if i % 8 == 5:
+            # one flat node whose operands are plain and WITH symbols over prefix-related keys
+            from core import enc_str
+            pool = [[0, [enc_str(k), 0]] for k in gen.ORDER_KEYS] + \
+                   [[1, [enc_str(k), 0], [enc_str(x), 0]] for k in gen.ORDER_KEYS[:8] for x in ('x', 'y')]
+            ops = rng.sample(pool, rng.randint(3, 6))
+            trees.append([rng.choice([1, 2]), [[0, a] for a in ops]])
+        elif i % 4 == 1:
+            trees.append(gen.gen_tree(rng, depth=rng.randint(1, 2), maxar=5, keys=gen.ORDER_KEYS))
+        else:
+            trees.append(gen.gen_tree(rng, depth=rng.randint(1, 4), maxar=4, collide=(i % 3 == 0)))
     cases = []
     for t in trees:
         v = None
